@@ -49,6 +49,11 @@ SHAPE_W_CONNS = [{}]
 SHAPE_W_SCRIPT = [["connect"], ["run", 2.0], ["frames", 2], ["run", 0.2], ["wmode", "fail"], ["send"], ["run", 1.0], ["frames", 1],
                   ["run", 0.5]]
 SHAPES["W"] = (SHAPE_W_SCRIPT, SHAPE_W_CONNS)
+# Y (EByte client only): the gateway answers with its 13-byte busy banner (the client waits 30 s, then treats it as a fault)
+SHAPE_Y_CONNS = [{}, {"delay": 0.1}]
+SHAPE_Y_SCRIPT = [["connect"], ["run", 1.0], ["frames", 1], ["run", 0.2], ["feed", b"Sorry,Limited".hex()], ["run", 31.0],
+                  ["frames", 1], ["run", 0.5]]
+SHAPES["Y"] = (SHAPE_Y_SCRIPT, SHAPE_Y_CONNS)
 PAIR = {"raise": "ret", "slowraise": "slow"}
 ALWAYS_SEARCH = True      # the oracle is cheap (the sessions are shared with correspond) and some sessions exist only for it
 # oracle-only sessions: close() called from INSIDE a callback, i.e. on one of the client's own tasks (not a schedule of the LTS)
@@ -73,7 +78,7 @@ def close_specs(ctx):
     shapes = ("A", "B")
     base, bmeta = [], []
     for c in clients:
-        for sh in shapes + (("S",) if c == "waveshare" else ()):
+        for sh in shapes + (("S",) if c == "waveshare" else ()) + (("Y",) if c == "ebyte" else ()):
             for cb in cbs:
                 base.append(_spec(c, cb, sh))
                 bmeta.append({"client": c, "cb": cb, "shape": sh, "at": None})
